@@ -29,6 +29,13 @@ type prCtx struct {
 	enc    bool
 	fname  string                       // enc: the function being translated (names the lifted literals)
 	lifted *[]liftedFunc                // enc: the function literals met so far
+	// the forms of the ID-assignment passes (idpass.go): converted closures, SForPtr, maps, dropped mutex calls
+	idpass     bool
+	closures   map[types.Object]*convClosure // the local variables bound to converted literals
+	aliases    map[types.Object]ast.Expr     // v of v, ok := x.(T): the place x
+	retExtra   []string                      // a lifted literal: the variables every return hands back after the results
+	retExtraOn bool
+	encl       *ast.FuncDecl // the function being translated
 }
 
 // a closed function literal, lifted to a body of its own
@@ -110,10 +117,37 @@ func (c *prCtx) expr(e ast.Expr) string {
 		if e.Name == "nil" {
 			return "ENil"
 		}
+		if c.idpass && c.closures != nil && c.closures[c.tp.info.Uses[e]] != nil {
+			break // a converted literal may only be called (closureCall): as a value it would lack the captured variables
+		}
 		return fmt.Sprintf("(EId %s)", coqString(e.Name))
 	case *ast.SelectorExpr:
+		if c.idpass {
+			// a variable of another package: the identifier of its qualified name
+			if id, ok := e.X.(*ast.Ident); ok {
+				if _, isPkg := c.tp.info.Uses[id].(*types.PkgName); isPkg {
+					if _, isVar := c.tp.info.Uses[e.Sel].(*types.Var); isVar {
+						return fmt.Sprintf("(EId %s)", coqString(id.Name+"."+e.Sel.Name))
+					}
+				}
+			}
+		}
 		return fmt.Sprintf("(ESel %s %s)", c.expr(e.X), coqString(e.Sel.Name))
 	case *ast.CallExpr:
+		if c.idpass {
+			// a converted literal is called in statement position only (closureCall)
+			if id, ok := e.Fun.(*ast.Ident); ok && c.closures[c.tp.info.Uses[id]] != nil {
+				break
+			}
+			// a conversion T(x) to a named integer type of this package
+			if id, ok := e.Fun.(*ast.Ident); ok && len(e.Args) == 1 {
+				if tn, isType := c.tp.info.Uses[id].(*types.TypeName); isType && tn.Pkg() != nil {
+					if b, isBasic := tn.Type().Underlying().(*types.Basic); isBasic && b.Info()&types.IsInteger != 0 {
+						return fmt.Sprintf("(ECall (EId %s) [%s])", coqString("$named:"+tn.Pkg().Name()+"."+tn.Name()), c.expr(e.Args[0]))
+					}
+				}
+			}
+		}
 		var args []string
 		for i, a := range e.Args {
 			if id, ok := e.Fun.(*ast.Ident); ok && id.Name == "make" && i == 0 {
@@ -190,6 +224,11 @@ func (c *prCtx) expr(e ast.Expr) string {
 		}
 		return fmt.Sprintf("(EAssert %s %s)", c.expr(e.X), coqString(tn))
 	case *ast.IndexExpr:
+		if c.idpass {
+			if ix, ok := c.mapIndex(e); ok {
+				return fmt.Sprintf("(ECall (EId \"$mapget\") [%s; %s])", c.expr(ix.X), c.expr(ix.Index))
+			}
+		}
 		return fmt.Sprintf("(EIndex %s %s)", c.expr(e.X), c.expr(e.Index))
 	case *ast.StarExpr:
 		return c.expr(e.X)
@@ -350,7 +389,8 @@ func zeroExpr(ft types.Type) string {
 
 func (c *prCtx) block(list []ast.Stmt) string {
 	var out []string
-	for _, st := range list {
+	for i, st := range list {
+		c.noteAlias(list, i)
 		out = append(out, c.stmt(st)...)
 	}
 	return "[" + strings.Join(out, "; ") + "]"
@@ -386,6 +426,21 @@ func (c *prCtx) assign(st *ast.AssignStmt) (string, bool) {
 	}
 	if len(st.Rhs) != 1 {
 		return "", false
+	}
+	if c.idpass && st.Tok == token.ASSIGN && len(st.Lhs) == 1 {
+		// *p = e for a pointer variable p
+		if star, ok := st.Lhs[0].(*ast.StarExpr); ok {
+			if id, isId := star.X.(*ast.Ident); isId {
+				return fmt.Sprintf("SLet false [%s] %s", coqString(id.Name), c.expr(st.Rhs[0])), true
+			}
+		}
+		// m[k] = v for a map held in a variable
+		if ix, ok := c.mapIndex(st.Lhs[0]); ok {
+			if m, isId := ix.X.(*ast.Ident); isId {
+				return fmt.Sprintf("SLet false [%s] (ECall (EId \"$mapset\") [(EId %s); %s; %s])", coqString(m.Name), coqString(m.Name), c.expr(ix.Index), c.expr(st.Rhs[0])), true
+			}
+			return "", false
+		}
 	}
 	// a, x.f = e   or   x.f[i] = e : through temporaries
 	if st.Tok == token.ASSIGN {
@@ -475,7 +530,7 @@ func (c *prCtx) assign(st *ast.AssignStmt) (string, bool) {
 		op := strings.TrimSuffix(st.Tok.String(), "=")
 		return fmt.Sprintf("SLet false %s (EBin %s %s %s)", c.names(st.Lhs), coqString(op), c.expr(st.Lhs[0]), c.expr(st.Rhs[0])), true
 	}
-	return fmt.Sprintf("SLet %v %s %s", st.Tok == token.DEFINE, c.names(st.Lhs), c.expr(st.Rhs[0])), true
+	return fmt.Sprintf("SLet %v %s %s", st.Tok == token.DEFINE, c.names(st.Lhs), c.rhsExpr(st)), true
 }
 
 func (c *prCtx) stmt(st ast.Stmt) []string {
@@ -484,8 +539,27 @@ func (c *prCtx) stmt(st ast.Stmt) []string {
 		if strings.HasPrefix(c.src(st), "buf := &strings.Builder{}") || strings.HasPrefix(c.src(st), "fw := &fmtWriter{") {
 			return nil
 		}
+		if c.idpass {
+			if len(st.Lhs) == 1 && len(st.Rhs) == 1 && st.Tok == token.DEFINE {
+				if fl, isLit := st.Rhs[0].(*ast.FuncLit); isLit {
+					if x, isId := st.Lhs[0].(*ast.Ident); isId && !c.closedLit(fl) {
+						if s, ok := c.convert(x, fl); ok {
+							return []string{s}
+						}
+						break
+					}
+				}
+			}
+			if out, ok := c.closureCall(st); ok {
+				return out
+			}
+		}
 		if s, ok := c.assign(st); ok {
 			return []string{s}
+		}
+	case *ast.DeferStmt:
+		if c.idpass && c.isMutexCall(st.Call) {
+			return nil // the lock is held from here to the return: Model/Concurrency.v
 		}
 	case *ast.DeclStmt:
 		// var x T: the zero value
@@ -545,6 +619,9 @@ func (c *prCtx) stmt(st ast.Stmt) []string {
 		if !ok {
 			break
 		}
+		if c.idpass && c.isMutexCall(call) {
+			return nil
+		}
 		if sel, isSel := call.Fun.(*ast.SelectorExpr); isSel && c.valueMode {
 			// a method called for its effect (inst.Type() fills the cache, x.SetName(n))
 			if _, isId := sel.X.(*ast.Ident); isId && c.src(sel.X) != "fmt" && c.src(sel.X) != "log" {
@@ -595,6 +672,22 @@ func (c *prCtx) stmt(st ast.Stmt) []string {
 		}
 	case *ast.IfStmt:
 		init := "None"
+		if c.idpass && st.Init != nil {
+			// if r := g(..); cond for a converted literal g: the call and its stores, then the if, in a scope of their own
+			if as, ok := st.Init.(*ast.AssignStmt); ok && as.Tok == token.DEFINE {
+				if pre, ok := c.closureCall(as); ok {
+					el := "[]"
+					if st.Else != nil {
+						if eb, ok := st.Else.(*ast.BlockStmt); ok {
+							el = c.block(eb.List)
+						} else {
+							el = "[" + strings.Join(c.stmt(st.Else), "; ") + "]"
+						}
+					}
+					return []string{fmt.Sprintf("SBlock [%s; SIf None %s %s %s]", strings.Join(pre, "; "), c.expr(st.Cond), c.block(st.Body.List), el)}
+				}
+			}
+		}
 		if st.Init != nil {
 			as, ok := st.Init.(*ast.AssignStmt)
 			if names, rhs, par := func() (string, string, bool) {
@@ -608,7 +701,7 @@ func (c *prCtx) stmt(st ast.Stmt) []string {
 				if !ok || len(as.Rhs) != 1 {
 					break
 				}
-				init = fmt.Sprintf("(Some (%s, %s))", c.names(as.Lhs), c.expr(as.Rhs[0]))
+				init = fmt.Sprintf("(Some (%s, %s))", c.names(as.Lhs), c.rhsExpr(as))
 			}
 		}
 		el := "[]"
@@ -621,6 +714,10 @@ func (c *prCtx) stmt(st ast.Stmt) []string {
 		}
 		return []string{fmt.Sprintf("SIf %s %s %s %s", init, c.expr(st.Cond), c.block(st.Body.List), el)}
 	case *ast.ForStmt:
+		if c.idpass && st.Init == nil && st.Cond == nil && st.Post == nil {
+			// for { body }: left by a return
+			return []string{fmt.Sprintf("SWhile (EBool true) [] %s", c.block(st.Body.List))}
+		}
 		if c.ext && st.Init == nil && st.Cond != nil {
 			// for cond { body }  and  for ; cond; post { body }
 			post := "[]"
@@ -717,9 +814,18 @@ func (c *prCtx) stmt(st ast.Stmt) []string {
 			if _, isMap := tv.Type.Underlying().(*types.Map); isMap {
 				form = "SForMap"
 			}
+			if sl, isSlice := tv.Type.Underlying().(*types.Slice); isSlice && c.idpass && st.Value != nil && isPtrLike(sl.Elem()) {
+				// a slice of pointers held in a variable or a field path: the element is stored back after the body
+				if root, _ := placePath(st.X); root != "" {
+					form = "SForPtr"
+				}
+			}
 		}
 		return []string{fmt.Sprintf("%s %s %s %s %s", form, coqString(k), coqString(v), c.expr(st.X), c.block(st.Body.List))}
 	case *ast.ReturnStmt:
+		if c.retExtraOn {
+			return []string{c.retStmt(st.Results)}
+		}
 		if len(st.Results) == 2 && c.src(st.Results[0]) == "fw.size" && c.src(st.Results[1]) == "fw.err" {
 			return []string{"SStop"}
 		}
@@ -800,7 +906,8 @@ Inductive gstmt :=
 | SPanic
 | SUnknown (s : string)
 | SWhile (cond : gexpr) (post : list gstmt) (body : list gstmt)    (* for cond { body } and for ; cond; post { body } *)
-| SBlock (body : list gstmt).                                      (* { body }: a scope of its own (for init; cond; post) *)
+| SBlock (body : list gstmt)                                       (* { body }: a scope of its own (for init; cond; post) *)
+| SForPtr (key val : string) (coll : gexpr) (body : list gstmt).   (* range over a slice of pointers held in a variable or a field path: the element, as the body leaves it, is stored back into its slot *)
 (* p_type is package.Type for a method, empty for a package-level helper *)
 Record printer := { p_pkg : string; p_type : string; p_method : string; p_recv : string; p_body : list gstmt }.`)
 	type item struct{ pkg, typ, method, recv, body string }
@@ -1175,4 +1282,6 @@ Record printer := { p_pkg : string; p_type : string; p_method : string; p_recv :
 		}
 		fmt.Fprintln(f, "].")
 	}
+	// the ID-assignment passes of package ir (idpass.go)
+	genIdPass(f, repo)
 }
